@@ -268,3 +268,45 @@ func (p *c20) prefixNamedTables(x *res, adapter string) {
 		}
 	}
 }
+
+// composedTexts: a registration is looked up by the WHOLE text of the request. With updaters registered for "SET a = :v"
+// and for "REMOVE b", the request "SET a = :v REMOVE b" (and the other compositions of registered texts) has no
+// updater: it is unsupported, none of the registered updaters runs, the item is untouched. The same for matchers:
+// "a = :v AND b = :w" is not served by the matchers of its conjuncts.
+func (p *c20) composedTexts(x *res, adapter string) {
+	spec := mon.SpecHashOnly("tbc")
+	stored := val.Item{"h": val.Str("k"), "a": val.Str("1"), "b": val.Str("2")}
+	parts := []string{"SET a = :v", "REMOVE b", "ADD n :v"}
+	for _, text := range []string{"SET a = :v REMOVE b", "REMOVE b SET a = :v", "SET a = :v  REMOVE b", "SET a = :v ADD n :v", "SET a = :v REMOVE b ADD n :v", "SET a = :v, a = :v"} {
+		cl := adapt.New(adapter)
+		nc := nativeOf(cl)
+		native := interpreter.NewNativeInterpreter()
+		ran := 0
+		for _, pt := range parts {
+			native.AddUpdater(spec.Name, pt, func(item map[string]*mtypes.Item, _ map[string]*mtypes.Item) {
+				ran++
+				s := "touched"
+				item["a"] = &mtypes.Item{S: &s}
+				delete(item, "b")
+			})
+		}
+		nc.setInterp(native)
+		nc.activate()
+		cl.Do(createOp(spec))
+		cl.Do(adapt.Op{Kind: adapt.OpPut, Table: spec.Name, Item: stored})
+		got := cl.Do(adapt.Op{Kind: adapt.OpUpdate, Table: spec.Name, Key: val.Item{"h": val.Str("k")}, Update: text, Values: val.Item{":v": val.Num("1")}})
+		after := cl.Do(adapt.Op{Kind: adapt.OpGet, Table: spec.Name, Key: val.Item{"h": val.Str("k")}})
+		x.r.Evals += 2
+		x.r.Counters["requests_composed_of_registered_texts"]++
+		x.fp(true, "%s|composed|%s", adapter, text)
+		wit := map[string]interface{}{"adapter": adapter, "registered": parts, "request": text, "outcome": got, "item_after": after.Item, "updaters_run": ran}
+		switch {
+		case got.Class == adapt.ClsRuntime:
+			x.viol("runtime-panic", got.Site, fmt.Sprintf("[%s] native update %q: panic %s", adapter, text, got.Msg), wit)
+		case got.Class != adapt.ClsUnsupported || ran != 0:
+			x.viol("dispatch-by-part-of-the-text", "update", fmt.Sprintf("[%s] the update %q has no registered updater (registered: %v): class %s, want the unsupported-feature error; registered updaters ran %d times", adapter, text, parts, got.Class, ran), wit)
+		case !val.ItemsEqual(after.Item, stored):
+			x.viol("failed-update-touched-item", "update/composed", fmt.Sprintf("[%s] the unsupported update %q changed the item to %s", adapter, text, after.Item.Canon()), wit)
+		}
+	}
+}
